@@ -52,7 +52,8 @@ type qsTrial struct {
 	Clearers  int    `json:"clearers"` // goroutines calling RemoveAll now and then
 	Fan       int    `json:"fan"`
 	Length    int    `json:"length"`
-	ProdPace  string `json:"producer_pace"` // fast | slow | bursty
+	Elem      string `json:"elem,omitempty"` // pipelines: element type of the queues (concelem.go); every 5th position of the stream is the zero value, a quarter of the trials stream only zero values
+	ProdPace  string `json:"producer_pace"`  // fast | slow | bursty
 	ConsPace  string `json:"consumer_pace"`
 }
 
@@ -80,7 +81,7 @@ func (t qsTrial) String() string {
 	case "construct":
 		return fmt.Sprintf("constructors with %d initial values (default capacity 16) and with capacity %d", t.Length, t.Capacity)
 	}
-	return fmt.Sprintf("%s cap=%d fan-out=%d stream length=%d feeder %s readers %s", t.Kind, t.Capacity, t.Fan, t.Length, t.ProdPace, t.ConsPace)
+	return fmt.Sprintf("%s over Queue[%s] cap=%d fan-out=%d stream length=%d (zero values inside) feeder %s readers %s", t.Kind, elemName(t.Elem), t.Capacity, t.Fan, t.Length, t.ProdPace, t.ConsPace)
 }
 
 func qsPace(r *rng, pace string, i int) {
@@ -330,10 +331,38 @@ func qsRunConstruct(t qsTrial) qsResult {
 	return res
 }
 
+// the pipelines run over the element types of concelem.go; position i of the stream carries code 10+i, except that
+// every fifth position (and, in a quarter of the trials, every position) carries the zero value of the type
 func qsRunPipe(t qsTrial) qsResult {
+	switch t.Elem {
+	case "string":
+		return qsRunPipeT(t, stringCodec())
+	case "ptr":
+		return qsRunPipeT(t, ptrCodec())
+	case "any":
+		return qsRunPipeT(t, anyCodec())
+	case "slice":
+		return qsRunPipeT(t, sliceCodec())
+	}
+	return qsRunPipeT(t, intCodec())
+}
+
+func qsRunPipeT[V any](t qsTrial, cd elemCodec[V]) qsResult {
 	res := qsResult{Id: t.Id, Conserved: true, Ordered: true, BoundsOk: true, ClosedOk: true}
 	r := newRng(t.Seed)
-	class := col.Queue[int](sharedNotation)
+	allZero := t.Seed%4 == 0
+	codeAt := func(i int) int {
+		if allZero || i%5 == 2 {
+			return 0
+		}
+		return 10 + i
+	}
+	codes := make([]int, t.Length)
+	for i := range codes {
+		codes[i] = codeAt(i)
+	}
+	enc, dec := cd.table(append([]int{0}, codes...))
+	class := col.Queue[V](sharedNotation)
 	input := class.MakeWithCapacity(uint(t.Capacity))
 	group := &sync.WaitGroup{}
 	var mu sync.Mutex
@@ -345,7 +374,7 @@ func qsRunPipe(t qsTrial) qsResult {
 		}
 		mu.Unlock()
 	}
-	var outs []col.QueueLike[int]
+	var outs []col.QueueLike[V]
 	switch t.Kind {
 	case "fork":
 		outs = class.Fork(group, input, uint(t.Fan)).AsArray()
@@ -353,12 +382,12 @@ func qsRunPipe(t qsTrial) qsResult {
 		outs = class.Split(group, input, uint(t.Fan)).AsArray()
 	case "splitjoin":
 		mid := class.Split(group, input, uint(t.Fan))
-		outs = []col.QueueLike[int]{class.Join(group, mid)}
+		outs = []col.QueueLike[V]{class.Join(group, mid)}
 	}
 	fr := r.fork()
 	qsGo(&all, &mu, &res, "feeder", func() {
 		for i := 0; i < t.Length; i++ {
-			input.AddValue(i)
+			input.AddValue(enc(codes[i]))
 			qsPace(fr, t.ProdPace, i)
 		}
 		input.CloseQueue()
@@ -376,7 +405,7 @@ func qsRunPipe(t qsTrial) qsResult {
 				if !ok {
 					return
 				}
-				got[o] = append(got[o], v)
+				got[o] = append(got[o], dec(v))
 				qsPace(lr, pace, i)
 			}
 		})
@@ -390,17 +419,17 @@ func qsRunPipe(t qsTrial) qsResult {
 		res.Delivered += len(got[o])
 		if v, ok := outs[o].RemoveHead(); ok {
 			res.ClosedOk = false
-			problem(fmt.Sprintf("output %d delivered %d after closure", o, v))
+			problem(fmt.Sprintf("output %d delivered %s after closure", o, codeName(t.Elem, dec(v))))
 		}
 		var want []int
 		switch t.Kind {
 		case "fork", "splitjoin":
 			for i := 0; i < t.Length; i++ {
-				want = append(want, i)
+				want = append(want, codes[i])
 			}
 		case "split":
 			for i := o; i < t.Length; i += t.Fan {
-				want = append(want, i)
+				want = append(want, codes[i])
 			}
 		}
 		if len(got[o]) != len(want) {
@@ -422,7 +451,7 @@ func qsRunPipe(t qsTrial) qsResult {
 				} else {
 					res.Conserved = false
 				}
-				problem(fmt.Sprintf("output %d position %d: %d, expected %d", o, i, got[o][i], want[i]))
+				problem(fmt.Sprintf("output %d position %d: %s, expected %s", o, i, codeName(t.Elem, got[o][i]), codeName(t.Elem, want[i])))
 				break
 			}
 		}
@@ -519,6 +548,7 @@ func genQueueStress(prop string, seed uint64, tier, outDir string, count int) er
 		switch prop {
 		case "C06":
 			t.Kind = []string{"fork", "split", "splitjoin"}[i%3]
+			t.Elem = concElems[(i/3)%len(concElems)]
 			t.Capacity = []int{1, 2, 3, 8, 64}[r.intn(5)]
 			t.Fan = 2 + r.intn(7)
 			lens := []int{0, 1, 2, 7, 100, 500, 2000}
